@@ -6,6 +6,7 @@
 #include "common.h"
 #include <cocls/async.h>
 #include <cocls/future.h>
+#include <cocls/self.h>
 
 using cocls::async;
 using cocls::future;
@@ -49,6 +50,25 @@ async<void> driver(Fut *a, Fut *b, bool *done) {
 async<void> resumer(Fut *a, std::coroutine_handle<> h) {
     a->p(1);                      // discarded: waiters queued (coroutine mode)
     coro_queue::resume(h);
+    g_log->push_back(0);
+    co_return;
+}
+
+// op 5: own handle inside the awaited suspend point: sp = co_await self(); sp << child_i.detach() (n children); co_await sp
+async<void> child(long id) {
+    g_log->push_back(id);
+    co_return;
+}
+async<void> self_awaiter(long n) {
+    suspend_point<void> sp = co_await cocls::self();
+    for (long i = 1; i <= n; i++) sp << child(i).detach();
+    co_await sp;
+    g_log->push_back(0);
+}
+// op 6: explicit clear() of a non-empty suspend point inside a running coroutine
+async<void> clearer(Fut *a) {
+    suspend_point<void> sp = a->p(1);
+    sp.clear();
     g_log->push_back(0);
     co_return;
 }
@@ -104,6 +124,20 @@ void run_op(const std::vector<long> &op) {
         } else {
             bool done = false;
             driver(&a, &b, &done).detach();
+        }
+        std::vector<long> o = {0, coro_queue::is_active() ? 1 : 0, qlen()};
+        for (long x : log) o.push_back(x);
+        vh::print_obs(o);
+        return;
+    }
+    if (op.size() == 2 && (op[0] == 5 || op[0] == 6)) {
+        long n = op[1];
+        if (n < 0 || n > 8) return rej();
+        Fut a;
+        if (op[0] == 5) self_awaiter(n).detach();
+        else {
+            subscribe(a, 1, n);
+            clearer(&a).detach();
         }
         std::vector<long> o = {0, coro_queue::is_active() ? 1 : 0, qlen()};
         for (long x : log) o.push_back(x);
